@@ -55,7 +55,7 @@ PLACES = {
     'PlaceLocal': {'root': 'L', 'mid': 'L', 'leaf': 'L'},
     'PlaceRemote': {'root': 'L', 'mid': 'L', 'leaf': 'R'},
 }
-SWITCHES = ('MailboxLocked', 'RegisterIfNotReady', 'DelayBeforeStart', 'CancelInPlace', 'ForgetDiscarded', 'DropLateBoxes')
+SWITCHES = ('MailboxLocked', 'RegisterIfNotReady', 'DelayBeforeStart', 'CancelInPlace', 'ForgetDiscarded', 'TolerantCompletion', 'DropLateBoxes')
 INV = ['NoDoubleWake', 'QueuedOnce', 'WokenNotRegistered', 'NoLostWake', 'NoHang', 'WaitingOK', 'RunAtMostOnce',
        'NoStartAfterCancel', 'NoResidue', 'NoErr', 'OrphanHasNoWaiter', 'LockDiscipline']
 HIST = dict(MailboxLocked=False, RegisterIfNotReady=False)
@@ -83,9 +83,10 @@ CONFIGS = {
     # a defect the model found in the code as it was when this layer was written (a task cancelled while it is executing leaves the
     # mailboxes it creates afterwards); DropLateBoxes is the repair proposed for it
     'latebox_MAX': _c('MA', cancel=True, off=dict(DropLateBoxes=False), inv=['NoLateBox'], live=False, expect='NoLateBox'),
-    # a second defect of that code (found by a random line-level scenario of C12, then modelled): a CANCEL that drops a mailbox
-    # of a task which is just completing makes _process_task_completion raise KeyError outside every handler -> the worker dies
-    'dieloop_CANL': _c('CANL', place='PlaceLocal', inv=['NoErr'], live=False, expect='NoErr'),
+    # 3fdf1bb (found by a random line-level scenario of C12, VERIF_SEED=2, then modelled): a CANCEL that drops a mailbox of a task
+    # which is just completing made _process_task_completion raise KeyError outside every handler -> the worker loop ended
+    'dieloop_CANL': _c('CANL', place='PlaceLocal', off=dict(TolerantCompletion=False), inv=['NoErr'], live=False, expect='NoErr'),
+    'CANL': _c('CANL', place='PlaceLocal'),
     # the model WITH the proposed repair, whatever the tree under test looks like (model checking only)
     'fixed_MAX': _c('MA', cancel=True), 'fixed_CAN': _c('CAN'), 'fixed_CANB': _c('CANB', place='PlaceLocal'), 'fixed_LEFT1': _c('LEFT1'),
 }
@@ -216,7 +217,7 @@ def _anchor_table():
         'complCheck': (pc_, [r'if task\.return_address not in self\._tasks:', r'if self\._drop_mailboxes_if_cancelled\(task\):'], 'firstof'),
         'stepCheck': (ts, [r'if self\._drop_mailboxes_if_cancelled\(task\):'], 'first'),
         'complPop': (pc_, [r'self\._tasks\.pop\(task\.return_address, None\)'], 'first'),
-        'complLoop': (pc_, [r'if mailbox_id in self\._mailboxes:'], 'first'),
+        'complLoop': (pc_, [r'box = self\._mailboxes\.get\(mailbox_id\)', r'if mailbox_id in self\._mailboxes:'], 'firstof'),
         'die': (Wk._loop, [r'self\._running = False'], 'first'),
     }
     hrl = {
@@ -229,9 +230,9 @@ def _anchor_table():
     inc = dict(hrl)
     inc.update({
         'recv': (ri, [r'msg, payload = self\._conn\.recv\(\)'], 'first'),
-        'subLock': (ri, [r'self\.read_receipt_mutex\.acquire\(\)'], ('nth', 0)),
+        'subLock': (ri, [r'self\.read_receipt_mutex\.acquire\(\)|with self\.read_receipt_mutex:'], ('nth', 0)),
         'subBody': (ri, [r'task = cast\(RuntimeTask, payload\)'], 'first'),
-        'batLock': (ri, [r'self\.read_receipt_mutex\.acquire\(\)'], ('nth', 1)),
+        'batLock': (ri, [r'self\.read_receipt_mutex\.acquire\(\)|with self\.read_receipt_mutex:'], ('nth', 1)),
         'batBody1': (ri, [r'tasks = cast\(list\[RuntimeTask\], payload\)'], 'first'),
         'batBody2': (ri, [r'self\._add_task\(', r'self\._delayed_tasks\.extend\(tasks\)'], ('later', r'tasks = cast\(list\[RuntimeTask\], payload\)')),
         'hcAdd': (hc, [r'self\._cancelled_task_ids\.add\(addr\)'], 'first'),
@@ -413,23 +414,42 @@ class FineRun:
     def advance(self, who, succ=None, limit=4000):
         """Run thread `who` alone until it reaches one of the anchors that can follow its current one."""
         t = self.th[who]
+        self.resync(who)
         succ = self.succ[who].get(self.pc[who], set()) if succ is None else succ
         n = 0
+        start = self.pc[who]
         while True:
             if t.state == 'done':
                 raise Drift('thread %s ended (%r)' % (who, t.exc))
             if not self.enabled(t):
-                raise Blocked('%s blocked at %s after %s' % (who, t.why, self.pc[who]))
+                self.resync(who)
+                raise Blocked('%s blocked at %s after %s' % (who, t.why, start))
             self.k.step(t)
             n += 1
             lab = self.label_at(who)
-            if lab is not None and lab in succ:
-                self.pc[who] = lab
-                self.nactions += 1
-                self.pump()
-                return lab
+            if lab is not None:
+                self.pc[who] = lab          # where the thread really is, expected or not
+                if lab in succ:
+                    self.nactions += 1
+                    self.pump()
+                    return lab
             if n > limit:
-                raise Drift('%s reached none of %s from %s' % (who, sorted(succ), self.pc[who]))
+                raise Drift('%s reached none of %s from %s' % (who, sorted(succ), start))
+
+    def resync(self, who):
+        """A thread that waits for a message / a ready task IS at that statement, whatever the bookkeeping says (the code may
+        have taken a path the specification does not have)."""
+        t = self.th[who]
+        if t is None or t.state != 'blocked' or not t.why:
+            return
+        if who == 'inc' and t.why[0] == 'recv':
+            self.pc['inc'] = 'recv'
+        elif who == 'main' and t.why[0] == 'qget':
+            self.pc['main'] = 'blockGet'
+
+    def inc_at_recv(self):
+        self.resync('inc')
+        return self.pc['inc'] == 'recv'
 
     def boot(self):
         rtprog = self.rtprog
@@ -626,7 +646,7 @@ class FineRun:
         n = 0
         while n < max_actions:
             cands = ['main']
-            if self.pc['inc'] != 'recv':
+            if not self.inc_at_recv():
                 cands.append('inc')
                 cands += [o for o in self.env_options(rng) if o[0] == 'assign' and self._all_remote(o[1])]
             else:
@@ -652,7 +672,41 @@ class FineRun:
                 except Blocked:
                     continue
             if not moved:
+                self.pump()
+                if any(self.enabled(self.th[w]) for w in ('main', 'inc')) and not (self.inc_at_recv() and not self.enabled(self.th['main'])):
+                    # bookkeeping and code disagree about where a thread is: finish without anchors
+                    self.run.note('HARNESS-NOTE WorkerFine driver lost track of the worker threads (code path unknown to the model); run finished line by line')
+                    return self.raw(rng)
+                if self.inc_at_recv() and (self.bconn.tx.q or self.env_options(random.Random(0))):
+                    return self.raw(rng)
                 return 'quiescent'
+        return 'maxsteps'
+
+    def raw(self, rng, max_steps=200000):
+        """Line-level random execution that does not rely on anchors at all (used when the code left the model's paths)."""
+        n = 0
+        while n < max_steps:
+            self.pump()
+            opts = [w for w in ('main', 'inc') if self.th[w].state != 'done' and self.enabled(self.th[w])]
+            ti = self.th['inc']
+            if ti.state == 'blocked' and ti.why and ti.why[0] == 'recv' and not self.bconn.tx.q:
+                opts += self.env_options(rng)
+            if not opts:
+                return 'quiescent'
+            c = opts[rng.randrange(len(opts))]
+            n += 1
+            if c == 'main' or c == 'inc':
+                self.k.step(self.th[c])
+                lab = self.label_at(c)
+                if lab is not None:
+                    self.pc[c] = lab
+            else:
+                try:
+                    msg = self.do_env(c, rng)
+                    if msg is not None:
+                        self.deliver(msg)
+                except Drift:
+                    return 'quiescent'
         return 'maxsteps'
 
     def finish(self, rng, record=False):
@@ -721,7 +775,7 @@ def replay(name, beh, mode='compare', seed=0, record=False):
                     out['skipped'] += 1
                     continue
                 if a.startswith('I_recv'):
-                    if fr.pc['inc'] != 'recv':
+                    if not fr.inc_at_recv():
                         if mode == 'compare':
                             raise Drift('incoming thread is at %s, not at recv' % fr.pc['inc'])
                         out['skipped'] += 1
@@ -931,15 +985,16 @@ def _plan(prop, quick):
                     adv=[('nolock_SAB', 100), ('nolock_MNA', 100), ('nolock_MNA3', 100), ('nolockonly_SA', 60), ('nodelay_MA', 60)],
                     rec=[(c, 200) for c in allc])
     if quick:
-        return dict(exh=['CAN', 'MAX', 'LEFT1'], sim=[('CAN', 20), ('MAX', 30), ('CANB', 20), ('LEFT1', 10)], cex=['noforget_CAN', 'latebox_MAX'],
-                    adv=[('noforget_CAN', 10)], rec=[('CAN', 15), ('MAX', 15), ('CANB', 15), ('LEFT1', 10)])
-    allc = ['CAN', 'LEFT', 'LEFT1', 'CANB', 'MAX']
+        return dict(exh=['CAN', 'MAX', 'LEFT1'], sim=[('CAN', 20), ('MAX', 30), ('CANB', 20), ('LEFT1', 10), ('CANL', 15)],
+                    cex=['noforget_CAN', 'latebox_MAX', 'dieloop_CANL'],
+                    adv=[('noforget_CAN', 10)], rec=[('CAN', 15), ('MAX', 15), ('CANB', 15), ('LEFT1', 10), ('CANL', 10)])
+    allc = ['CAN', 'LEFT', 'LEFT1', 'CANB', 'CANL', 'MAX']
     if not repaired():
         # the model WITH the repair proposed for the mailbox leak is checked as well (model checking only, nothing to bind it to yet)
         return dict(exh=allc + ['fixed_MAX', 'fixed_CAN', 'fixed_CANB', 'fixed_LEFT1'], sim=[(c, 300) for c in allc],
-                    cex=['noforget_CAN', 'norebind_CANB', 'latebox_MAX'], adv=[('noforget_CAN', 100), ('norebind_CANB', 100)],
+                    cex=['noforget_CAN', 'norebind_CANB', 'latebox_MAX', 'dieloop_CANL'], adv=[('noforget_CAN', 100), ('norebind_CANB', 100)],
                     rec=[(c, 200) for c in allc])
-    return dict(exh=allc, sim=[(c, 300) for c in allc], cex=['noforget_CAN', 'norebind_CANB', 'latebox_MAX'],
+    return dict(exh=allc, sim=[(c, 300) for c in allc], cex=['noforget_CAN', 'norebind_CANB', 'latebox_MAX', 'dieloop_CANL'],
                 adv=[('noforget_CAN', 100), ('norebind_CANB', 100)], rec=[(c, 200) for c in allc])
 
 
@@ -1020,11 +1075,13 @@ class Handle:
                     raise common.MachineryError('WorkerFine is not sharp: with %s TLC should find %s violated, found %s' % (
                         CONFIGS[n]['off'] or n, expect, r['violated']))
                 cexs[n] = {'violated': expect, 'trace_length': len(r['behaviour'] or []), 'distinct_states_until_found': r['distinct']}
+                # does this configuration describe the tree under test after all (a defect that is still there)?
+                current = all(v == (repaired() if s == 'DropLateBoxes' else True) for s, v in CONFIGS[n]['off'].items())
                 if r['behaviour']:
                     # a fix switched off: the counterexample is a schedule for the real code; a defect of the current code
-                    # (no switch off) is replayed exactly
-                    jobs.append(('replay', n, r['behaviour'], 'schedule' if CONFIGS[n]['off'] else 'compare', ctx.seed))
-                if not CONFIGS[n]['off']:
+                    # is replayed exactly
+                    jobs.append(('replay', n, r['behaviour'], 'compare' if current else 'schedule', ctx.seed))
+                if current:
                     notes.append('L2-COUNTEREXAMPLE layer=WorkerFine config=%s invariant=%s (the model of the CURRENT code breaks it; the '
                                  'behaviour is replayed on the real worker and judged by L1)' % (n, expect))
             elif r['violated']:
